@@ -262,7 +262,8 @@ def check_sim(ctx, c):
     spec = c["sys"]
     model = Model(spec)
     system = sut_call("build_system", B.build_system, spec, "ctor")
-    script = sut_call("RDScript", S.RDScript, system, [0], time_step=1e-4, t_max=1.0, sampling_policy="on_iteration",
+    # explicit seconds: a bare number would be read in the script's time unit (hours ...) and make the run unstable
+    script = sut_call("RDScript", S.RDScript, system, [0], time_step="1e-4 s", t_max="1 s", sampling_policy="on_iteration",
                       rng_seed=c["seed"], units_system=B.US(c["out"]))
     traj, _, _ = sut_call("engine run", sim.drive, script, c["engine"], c["steps"])
     sp = spec["space"]
